@@ -64,6 +64,29 @@ Lemma style_instance_ignored_record : forall (s : schema) (st inst : tree),
   set_style colors false s st (SInst inst) = (st, None).
 Proof. intros s st inst. reflexivity. Qed.
 
+(* ONE call, two leaves with the same head: a nested dict followed by an underscore key keeps both, an underscore
+   key followed by the plain (nested) key loses the first -- magic_to_dict overwrites what it collected *)
+Definition arg_under_then_nested : dict :=
+  [("path_line_width", Leaf (Some (VInt 5))); ("path", Node [("marker", Node [("size", Leaf (Some (VInt 9)))])])].
+Definition arg_nested_then_under : dict :=
+  [("path", Node [("marker", Node [("size", Leaf (Some (VInt 9)))])]); ("path_line_width", Leaf (Some (VInt 5)))].
+Definition arg_nested_then_reopened : dict :=
+  [("path", Node [("line", Node [("width", Leaf (Some (VInt 5)))])]);
+   ("path_line", Node [("color", Leaf (Some (VStr "red")))])].
+Definition updated (arg : dict) : tree :=
+  fst (update colors schema_BaseStyle (fresh_state schema_BaseStyle) arg true false).
+
+Lemma mixed_call_witness :
+  leaf_is schema_BaseStyle (updated arg_nested_then_under) ["path"; "marker"; "size"] (Some (VInt 9)) = true /\
+  leaf_is schema_BaseStyle (updated arg_nested_then_under) ["path"; "line"; "width"] (Some (VInt 5)) = true /\
+  leaf_is schema_BaseStyle (updated arg_under_then_nested) ["path"; "marker"; "size"] (Some (VInt 9)) = true /\
+  leaf_is schema_BaseStyle (updated arg_under_then_nested) ["path"; "line"; "width"] None = true /\
+  magic_to_dict arg_under_then_nested = [("path", Node [("marker", Node [("size", Leaf (Some (VInt 9)))])])] /\
+  (* shallow merge: a nested dict followed by a key that re-opens its sub-dictionary `line` *)
+  leaf_is schema_BaseStyle (updated arg_nested_then_reopened) ["path"; "line"; "color"] (Some (VStr "red")) = true /\
+  leaf_is schema_BaseStyle (updated arg_nested_then_reopened) ["path"; "line"; "width"] None = true.
+Proof. repeat split; vm_compute; reflexivity. Qed.
+
 (* record of the variant before 4641759 (alias listed by as_dict): arrow.size = 2 by attribute, then
    update(magnetization_arrow_size=0.5) left 2; with the generated schema it gives 0.5 *)
 Definition p_asize : path := ["magnetization"; "arrow"; "size"].
